@@ -129,6 +129,19 @@ func workerRun(p *Program, job *Job) {
 			stride = 1
 		}
 	}
+	// thorough tier: the cases are visited in a fixed pseudo-random order (a
+	// multiplicative permutation of the index range), so that the time budget,
+	// when it ends the run early, has sampled every family of the check instead
+	// of cutting off the ones with the highest indices
+	total := chk.NumCases(job.Tier)
+	perm := func(i int) int { return i }
+	if job.Tier == "thorough" && !job.Spread && total > 1 {
+		mult := 1_000_003
+		for total%mult == 0 {
+			mult += 2
+		}
+		perm = func(i int) int { return int(int64(i) * int64(mult) % int64(total)) }
+	}
 	for i := job.From; i < job.To; i++ {
 		if job.Only >= 0 {
 			if i != job.Only {
@@ -141,7 +154,7 @@ func workerRun(p *Program, job *Job) {
 			timedOut = true
 			break
 		}
-		c := chk.Gen(env, job.Seed, job.Tier, i*stride)
+		c := chk.Gen(env, job.Seed, job.Tier, perm(i)*stride)
 		if c == nil {
 			continue
 		}
